@@ -6,7 +6,8 @@
 //!     flags    three characters 0/1: optimize_statically_known, optimize_instruction_matching, debug_iterations
 //!     defines  `;`-separated `namehex:T` | `namehex:F` | `namehex:I<signed decimal>`          (may be empty)
 //!     files    `;`-separated `namehex=contenthex`
-//!   answer `A <ok|err> E=<top-level Error messages> M=<top-level messages> out=<0|1> err=<AssemblyResult.error 0|1>
+//!   answer `A <ok|err> E=<top-level messages carrying an Error at any depth> T=<top-level messages of kind Error>
+//!             H=<Report::has_errors 0|1> M=<top-level messages> out=<0|1> err=<AssemblyResult.error 0|1>
 //!             print=<ok|panic> it=<iterations|-> hook=<0|1> K=<which error sites spoke, coverage only>`
 //!          ok/err = whether `output` is Some.  print = print_all of the whole report into a buffer.
 //!
@@ -14,7 +15,7 @@
 //!     file server wrapped to log writes and to inject permanent faults
 //!     faults   `;`-separated `H:<namehex>` get_handle fails, `R:<namehex>` get_bytes fails, `W:<namehex>` write_bytes
 //!              fails; each failure reports an error first, as FileServerReal does                 (may be empty)
-//!   answer `D <OK|ERR> E= M= out= err= W=<namehex:length:ok|fail;..> print=<ok|panic> hook=`
+//!   answer `D <OK|ERR> E= T= H= M= out= err= W=<namehex:length:ok|fail;..> print=<ok|panic> hook=`
 //!
 //! `PANIC at=<hex of file:line>` when the call panics, `TIMEOUT` when it does not return within VH_TIMEOUT_MS (default 10000).  Each case runs
 //! on its own thread with the main thread's usual 8 MiB of stack; a stack overflow kills the process (the caller sees
@@ -55,7 +56,7 @@ fn add_files(fs: &mut util::FileServerMock, field: &str) {
 fn kinds(report: &diagn::Report) -> String {
     let mut seen = std::collections::BTreeSet::new();
     for m in report.verif_messages() {
-        if !matches!(m.kind, diagn::MessageKind::Error) {
+        if !carries_error(m) {
             continue;
         }
         let d = &m.descr;
@@ -66,15 +67,20 @@ fn kinds(report: &diagn::Report) -> String {
     seen.into_iter().collect()
 }
 
-/// (errors, messages, hook present)
-fn count(report: &diagn::Report) -> (usize, usize, bool) {
+fn carries_error(m: &diagn::Message) -> bool {
+    matches!(m.kind, diagn::MessageKind::Error) || m.inner.iter().any(carries_error)
+}
+
+/// (top-level messages carrying an Error at any depth, top-level messages of kind Error, messages, hook present)
+fn count(report: &diagn::Report) -> (usize, usize, usize, bool) {
     let msgs = report.verif_messages();
-    let errors = msgs.iter().filter(|m| matches!(m.kind, diagn::MessageKind::Error)).count();
+    let deep = msgs.iter().filter(|m| carries_error(m)).count();
+    let top = msgs.iter().filter(|m| matches!(m.kind, diagn::MessageKind::Error)).count();
     let missing = HOOK_MISSING.load(std::sync::atomic::Ordering::SeqCst);
     if missing {
-        (report.len(), report.len(), false)
+        (report.len(), report.len(), report.len(), false)
     } else {
-        (errors, report.len(), true)
+        (deep, top, report.len(), true)
     }
 }
 
@@ -118,9 +124,9 @@ fn library(f: &[String]) -> String {
     match r {
         None => panic_answer(),
         Some(a) => {
-            let (e, m, hook) = count(&report);
-            format!("A\t{}\tE={}\tM={}\tout={}\terr={}\tprint={}\tit={}\thook={}\tK={}",
-                if a.output.is_some() { "ok" } else { "err" }, e, m,
+            let (e, t, m, hook) = count(&report);
+            format!("A\t{}\tE={}\tT={}\tH={}\tM={}\tout={}\terr={}\tprint={}\tit={}\thook={}\tK={}",
+                if a.output.is_some() { "ok" } else { "err" }, e, t, if report.has_errors() { 1 } else { 0 }, m,
                 if a.output.is_some() { 1 } else { 0 }, if a.error { 1 } else { 0 },
                 printable(&report, &fs),
                 a.iterations_taken.map(|n| n.to_string()).unwrap_or("-".to_string()),
@@ -195,13 +201,13 @@ fn through_driver(f: &[String]) -> String {
     let mut report = diagn::Report::new();
     let r = guarded(|| driver::drive(&mut report, &args, &mut fs));
     let writes = fs.writes.iter().map(|(n, l, ok)| format!("{}:{}:{}", hex(n), l, if *ok { "ok" } else { "fail" })).collect::<Vec<_>>().join(";");
-    let (e, m, hook) = count(&report);
+    let (e, t, m, hook) = count(&report);
     let (status, out, err) = match &r {
         None => return format!("{}\tW={}", panic_answer(), writes),
         Some(Ok(a)) => ("OK", a.output.is_some(), a.error),
         Some(Err(())) => ("ERR", false, true),
     };
-    format!("D\t{}\tE={}\tM={}\tout={}\terr={}\tW={}\tprint={}\thook={}\tK={}", status, e, m,
+    format!("D\t{}\tE={}\tT={}\tH={}\tM={}\tout={}\terr={}\tW={}\tprint={}\thook={}\tK={}", status, e, t, if report.has_errors() { 1 } else { 0 }, m,
         if out { 1 } else { 0 }, if err { 1 } else { 0 }, writes, printable(&report, &fs), if hook { 1 } else { 0 }, kinds(&report))
 }
 
